@@ -10,6 +10,8 @@ use std::hash::{Hash, Hasher};
 
 #[derive(Clone, Copy, Default, Debug)]
 pub struct Props {
+    /// C02: compare Debug renderings between move_new / move_mut / move_into on every transition
+    pub deep: bool,
     pub c01: bool,
     pub c02: bool,
     pub c03: bool,
@@ -83,6 +85,29 @@ fn mv_class(rp: &Position, m: Mv) -> &'static str {
             _ => "no-piece",
         }
     }
+}
+
+/// en passant, castling, promotion
+pub fn is_rule_special(rp: &Position, m: Mv) -> bool {
+    let cls = mv_class(rp, m);
+    cls == "en-passant" || cls == "castling" || cls == "promotion"
+}
+
+/// moves that exercise a special rule: en passant, castling, promotion, a double pawn step
+/// (sets the marker), or anything that can change castling rights
+pub fn is_special(rp: &Position, m: Mv) -> bool {
+    let cls = mv_class(rp, m);
+    if cls == "en-passant" || cls == "castling" || cls == "promotion" {
+        return true;
+    }
+    let pc = rp.at(m.from).map(|x| x.1);
+    if pc == Some(Pc::P) && (refchess::rank_of(m.from) - refchess::rank_of(m.to)).abs() == 2 {
+        return true;
+    }
+    if rp.rights.iter().any(|x| *x) && (pc == Some(Pc::K) || pc == Some(Pc::R) || [0u8, 7, 56, 63].contains(&m.to)) {
+        return true;
+    }
+    false
 }
 
 /// triples that look like moves but are not legal: pseudo-legal-but-illegal, legal (from,to) with
@@ -184,15 +209,34 @@ pub fn c01_state(rp: &Position, b: &Board, legal: &[Mv], props: &Props, st: &mut
 // ------------------------------------------------------------------ C02
 
 fn bits_equal(a: &Board, b: &Board) -> bool {
+    cheap_equal(a, b) && format!("{a:?}") == format!("{b:?}")
+}
+
+/// everything observable except the Debug text: equality, clocks, hash, check flag and the
+/// generated move list in generation order (which depends on the cached pin/checker sets)
+fn cheap_equal(a: &Board, b: &Board) -> bool {
     a == b
         && a.half_move_clock() == b.half_move_clock()
         && a.full_move_clock() == b.full_move_clock()
         && a.zobrist() == b.zobrist()
-        && format!("{a:?}") == format!("{b:?}")
+        && a.in_check() == b.in_check()
+        && a.legals().eq(b.legals())
 }
 
-/// one transition: `m` is reference-legal in `rp`
-pub fn c02_transition(rp: &Position, b: &Board, m: Mv, child_ref: &Position) -> (Option<Board>, Vec<Divergence>) {
+/// squares, side to move and clocks through the accessors only (no text involved)
+fn accessors_match(b: &Board, want: &Position) -> bool {
+    for s in 0..64u8 {
+        let got = b.raw().get(pos(s)).map(|(c, pc)| (ref_color(c), ref_piece(pc)));
+        if got != want.board[s as usize] {
+            return false;
+        }
+    }
+    ref_color(b.turn()) == want.turn && b.half_move_clock() as u32 == want.half && b.full_move_clock() as u32 == want.full
+}
+
+/// one transition: `m` is reference-legal in `rp`.  `deep` adds the Debug-text comparisons
+/// (cached pin/checker sets, raw piece hash) between the three checked operations.
+pub fn c02_transition(rp: &Position, b: &Board, m: Mv, child_ref: &Position, deep: bool) -> (Option<Board>, Vec<Divergence>) {
     let mut d = vec![];
     let rm = real_mv(m);
     let cls = mv_class(rp, m);
@@ -203,29 +247,35 @@ pub fn c02_transition(rp: &Position, b: &Board, m: Mv, child_ref: &Position) -> 
         ));
         return (None, d);
     };
-    let got = read_back(&child);
-    if let Some(diff) = diff_position(&got, child_ref) {
-        let what = if got.board != child_ref.board {
-            "placement"
-        } else if got.rights != child_ref.rights {
-            "rights"
-        } else if got.ep != child_ref.ep {
-            "ep-marker"
-        } else if got.half != child_ref.half {
-            "half-move-clock"
-        } else if got.full != child_ref.full {
-            "full-move-clock"
-        } else {
-            "side-to-move"
-        };
-        d.push(Divergence::new(
-            format!("wrong-successor:{what}:{cls}"),
-            format!("{} after {}: {diff}", rp.to_fen(), m.uci()),
-        ));
-    }
-    // Eq against the from-scratch twin covers rights and marker without the Debug text
-    if let Ok(twin) = parse_board(&child_ref.to_fen()) {
-        if child != twin {
+    // Eq against the from-scratch twin covers rights and marker without any text
+    let twin = parse_board(&child_ref.to_fen());
+    let eq_twin = match &twin {
+        Ok(t) => child == *t,
+        Err(_) => false,
+    };
+    if !accessors_match(&child, child_ref) || !eq_twin || deep {
+        // slow path: read everything back (rights / marker from the Debug text) and name the field
+        let got = read_back(&child);
+        if let Some(diff) = diff_position(&got, child_ref) {
+            let what = if got.board != child_ref.board {
+                "placement"
+            } else if got.rights != child_ref.rights {
+                "rights"
+            } else if got.ep != child_ref.ep {
+                "ep-marker"
+            } else if got.half != child_ref.half {
+                "half-move-clock"
+            } else if got.full != child_ref.full {
+                "full-move-clock"
+            } else {
+                "side-to-move"
+            };
+            d.push(Divergence::new(
+                format!("wrong-successor:{what}:{cls}"),
+                format!("{} after {}: {diff}", rp.to_fen(), m.uci()),
+            ));
+        }
+        if twin.is_ok() && !eq_twin {
             d.push(Divergence::new(
                 format!("successor-not-eq-rebuilt:{cls}"),
                 format!("{} after {}: board != parse({})", rp.to_fen(), m.uci(), child_ref.to_fen()),
@@ -233,9 +283,10 @@ pub fn c02_transition(rp: &Position, b: &Board, m: Mv, child_ref: &Position) -> 
         }
     }
     // the three checked operations agree
+    let same = |a: &Board, b: &Board| if deep { bits_equal(a, b) } else { cheap_equal(a, b) };
     let mut mm = *b;
     let ok = mm.move_mut(rm);
-    if !ok || !bits_equal(&mm, &child) {
+    if !ok || !same(&mm, &child) {
         d.push(Divergence::new(
             format!("move_mut-disagrees:{cls}"),
             format!("{}: move_mut({}) ok={ok}", rp.to_fen(), m.uci()),
@@ -243,7 +294,7 @@ pub fn c02_transition(rp: &Position, b: &Board, m: Mv, child_ref: &Position) -> 
     }
     let mut out = Board::standard();
     let ok = b.move_into(rm, &mut out);
-    if !ok || !bits_equal(&out, &child) {
+    if !ok || !same(&out, &child) {
         d.push(Divergence::new(
             format!("move_into-disagrees:{cls}"),
             format!("{}: move_into({}) ok={ok}", rp.to_fen(), m.uci()),
@@ -256,6 +307,7 @@ pub fn c02_transition(rp: &Position, b: &Board, m: Mv, child_ref: &Position) -> 
 pub fn c02_refusals(rp: &Position, b: &Board, legal: &[Mv], sweep: bool, st: &mut StateStats) -> Vec<Divergence> {
     let mut d = vec![];
     let mut offers = near_misses(rp, legal);
+    let n_near = offers.len();
     if sweep {
         let want: BTreeSet<Mv> = legal.iter().copied().collect();
         for from in 0..64u8 {
@@ -270,7 +322,8 @@ pub fn c02_refusals(rp: &Position, b: &Board, legal: &[Mv], sweep: bool, st: &mu
         }
     }
     let sentinel = Board::standard();
-    for m in offers {
+    for (i, m) in offers.into_iter().enumerate() {
+        let same = |a: &Board, b: &Board| if i < n_near.min(6) { bits_equal(a, b) } else { cheap_equal(a, b) };
         st.illegal_offers += 1;
         let rm: ChessMove = real_mv(m);
         let cls = mv_class(rp, m);
@@ -282,14 +335,14 @@ pub fn c02_refusals(rp: &Position, b: &Board, legal: &[Mv], sweep: bool, st: &mu
             continue;
         }
         let mut mm = *b;
-        if mm.move_mut(rm) || !bits_equal(&mm, b) {
+        if mm.move_mut(rm) || !same(&mm, b) {
             d.push(Divergence::new(
                 format!("move_mut-illegal-not-inert:{cls}"),
                 format!("{}: move_mut({}) accepted or changed the board", rp.to_fen(), m.uci()),
             ));
         }
         let mut out = sentinel;
-        if b.move_into(rm, &mut out) || !bits_equal(&out, &sentinel) {
+        if b.move_into(rm, &mut out) || !same(&out, &sentinel) {
             d.push(Divergence::new(
                 format!("move_into-illegal-not-inert:{cls}"),
                 format!("{}: move_into({}) accepted or wrote the output", rp.to_fen(), m.uci()),
